@@ -1,7 +1,7 @@
 (* C08 — cumulative operations are per-group prefix reductions. *)
 From Coq Require Import List ZArith Bool.
 From GL Require Import Lib.Arr Lib.Keyed Model.Dom Model.Scalar Model.Cumulative
-  Proofs.RowGeneric Proofs.GenTie Gen.ScalarFuncsGen.
+  Spec.Defs Proofs.ReduceSeries Proofs.RowGeneric Proofs.CumProofs Proofs.GenTie Gen.ScalarFuncsGen.
 Import ListNotations.
 Open Scope Z_scope.
 
@@ -43,3 +43,57 @@ Proof.
   exact (conj (tie_nansum fops) (conj (tie_sum fops) (conj (tie_nanmin fops) (conj (tie_nanmax fops) (tie_nancount (zops true 0)))))).
 Qed.
 Print Assumptions C08_reducers_are_the_source's.
+
+(* ---- per-group prefix reductions (one group's series of selected rows, any length) ---- *)
+Theorem C08_cumsum_prefix (l : list fl) v :
+  snd (cum_step (r_nansum fops) (run_cum (r_nansum fops) (zero fops) l) (v, true)) = sum_list fops (nonnull fops (l ++ [v])).
+Proof. exact (cumsum_prefix fops fops_laws l v). Qed.
+Theorem C08_cumsum_prefix_int nullable nullv (l : list Z) v :
+  let o := zops nullable nullv in
+  snd (cum_step (r_nansum o) (run_cum (r_nansum o) (zero o) l) (v, true)) = sum_list o (nonnull o (l ++ [v])).
+Proof. exact (cumsum_prefix _ (zops_laws nullable nullv) l v). Qed.
+Theorem C08_cummin_prefix (l : list fl) v :
+  let out := snd (cum_step (r_nanmin fops) (run_cum (r_nanmin fops) (null fops) l) (v, true)) in
+  match nonnull fops (l ++ [v]) with [] => out = null fops | _ => is_min_of fops out (nonnull fops (l ++ [v])) end.
+Proof. exact (cummin_prefix fops fops_laws l v). Qed.
+Theorem C08_cummax_prefix (l : list fl) v :
+  let out := snd (cum_step (r_nanmax fops) (run_cum (r_nanmax fops) (null fops) l) (v, true)) in
+  match nonnull fops (l ++ [v]) with [] => out = null fops | _ => is_max_of fops out (nonnull fops (l ++ [v])) end.
+Proof. exact (cummax_prefix fops fops_laws l v). Qed.
+Theorem C08_cummax_prefix_temporal (l : list Z) v :
+  let o := zops true 0 in
+  let out := snd (cum_step (r_nanmax o) (run_cum (r_nanmax o) (null o) l) (v, true)) in
+  match nonnull o (l ++ [v]) with [] => out = null o | _ => is_max_of o out (nonnull o (l ++ [v])) end.
+Proof. exact (cummax_prefix _ (zops_laws true 0) l v). Qed.
+(* cumcount: the counter after the row = rows of the group so far; the public result subtracts one *)
+Theorem C08_cumcount (l : list fl) v init :
+  snd (series (r_count fops) (l ++ [v]) (init, 0)) = Z.of_nat (length l) + 1.
+Proof. exact (cumcount_prefix fops l v init). Qed.
+(* a masked row passes the running value through without changing the cell *)
+Theorem C08_masked_row (rf : @reducer fl) c v : cum_step rf c (v, false) = (c, fst c).
+Proof. exact (cum_masked rf c v). Qed.
+Print Assumptions C08_cumsum_prefix.
+Print Assumptions C08_cummin_prefix.
+Print Assumptions C08_cummax_prefix_temporal.
+Print Assumptions C08_cumcount.
+
+(* ---- whole array, any number of groups, any mask: the output at every row with a real key is the
+   reducer folded over the group's earlier selected values (plus this row's when selected) ---- *)
+Theorem C08_every_row {V} (o : ops V) op skip_na gk vals ng mask i k v sel :
+  nth_error (mk_rows gk vals mask) i = Some (k, (v, sel)) -> 0 <= k -> (Z.to_nat k < ng)%nat ->
+  nth i (cumulative o op skip_na gk vals ng mask) (null o) =
+    fst (series (reducer_of o (cum_reducer op skip_na))
+           (earlier gk vals mask k i ++ (if sel then [v] else [])) (cum_init o op, 0)).
+Proof. exact (cumulative_row o op skip_na gk vals ng mask i k v sel). Qed.
+Print Assumptions C08_every_row.
+
+Theorem C08_cumsum_every_row gk (vals : list fl) ng mask i k v :
+  nth_error (mk_rows gk vals mask) i = Some (k, (v, true)) -> 0 <= k -> (Z.to_nat k < ng)%nat ->
+  nth i (cumulative fops CSum true gk vals ng mask) (null fops) =
+    sum_list fops (nonnull fops (earlier gk vals mask k i ++ [v])).
+Proof. exact (cumsum_row fops fops_laws gk vals ng mask i k v). Qed.
+Print Assumptions C08_cumsum_every_row.
+
+Example C08_example :
+  cumulative (zops true 0) CMax true [0; 1; 0; -1; 0] [5; 100; MIN_INT; 100; 7] 2 None = [5; 100; 5; MIN_INT; 7].
+Proof. vm_compute. reflexivity. Qed.
